@@ -78,6 +78,50 @@ def run_variant(pid, v, base: Path):
         shutil.rmtree(d, ignore_errors=True)
 
 
+def replay_seeds(pid):
+    """/verif/seeded/<id>-*/patch.diff: a seed that this property's check is recorded to catch must still make it exit 1."""
+    seeds = sorted(d for d in (VERIF / "seeded").glob("*") if (d / "meta.json").exists())
+    mine = []
+    for d in seeds:
+        m = json.loads((d / "meta.json").read_text())
+        if pid in m.get("checks_raising_alarm", []) and m.get("applies_to_current_tree", True):
+            mine.append(d)
+    if not mine:
+        return 0
+    base = Path(tempfile.mkdtemp(prefix="sa-seeds-"))
+    bad = []
+    try:
+        def one(d):
+            w = Path(tempfile.mkdtemp(prefix=f"{d.name}-", dir=str(base)))
+            shutil.copytree(REPO / "shangrla", w / "shangrla", ignore=shutil.ignore_patterns("__pycache__"))
+            r = subprocess.run(["patch", "-p1", "-s", "-i", str(d / "patch.diff")], cwd=w, capture_output=True, text=True)
+            if r.returncode != 0:
+                return d.name, "patch-no-longer-applies"
+            env = dict(os.environ, VERIF_REPO=str(w), VERIF_EVIDENCE_DIR=str(w / "evidence"))
+            r = subprocess.run([sys.executable, "-m", "sa.main", pid, "--tier", "quick"], cwd=str(VERIF), env=env, capture_output=True, text=True, timeout=600)
+            return d.name, ("caught" if r.returncode == 1 and "VIOLATION property=" in r.stdout else f"NOT-CAUGHT rc={r.returncode}")
+        with ThreadPoolExecutor(max_workers=8) as ex:
+            res = list(ex.map(one, mine))
+    finally:
+        shutil.rmtree(base, ignore_errors=True)
+    caught = [n for n, st in res if st == "caught"]
+    stale = [n for n, st in res if st == "patch-no-longer-applies"]
+    bad = [(n, st) for n, st in res if st.startswith("NOT-CAUGHT")]
+    print(f"selftest {pid}: seeded changes: {len(caught)} caught, {len(stale)} no longer apply, {len(bad)} missed of {len(res)}")
+    ev = Path(os.environ.get("VERIF_EVIDENCE_DIR", str(VERIF / "evidence"))) / f"{pid}.json"
+    if ev.exists():
+        try:
+            data = json.loads(ev.read_text())
+            data["coverage"]["seeded_changes_replayed"] = {"caught": caught, "no_longer_apply": stale, "missed": [n for n, _ in bad]}
+            ev.write_text(json.dumps(data, indent=1))
+        except Exception:
+            pass
+    if bad:
+        print(f"ANALYSIS-ERROR property={pid}: seeded change(s) no longer detected: {bad}")
+        return 2
+    return 0
+
+
 def run_for(pid, verbose=True, only=None):
     vs = variants_for(pid)
     if only:
@@ -116,6 +160,11 @@ def run_for(pid, verbose=True, only=None):
     if bad:
         print(f"ANALYSIS-ERROR property={pid}: sensitivity self-test failed for {[v['id'] for v, _, _ in bad]}")
         return 2
+    # the independently seeded changes filed for this property must still be reported (or still be recorded as honest misses)
+    if not only:
+        rc = replay_seeds(pid)
+        if rc != 0:
+            return rc
     # the automatic benign twin: every local variable of every function renamed (tools/alpha_twin.py)
     if not only:
         r = subprocess.run([sys.executable, str(VERIF / "tools" / "alpha_twin.py"), pid], cwd=str(VERIF), capture_output=True, text=True, timeout=900)
